@@ -46,7 +46,7 @@ def case_st(draw):
     square = draw(st.integers(0, 3)) == 0
     if square:
         nd = draw(st.integers(2, 4))
-        dims = list(draw(st.permutations(gen.NAMES)))[:nd]
+        dims = list(draw(st.permutations(draw(gen.names_pool()))))[:nd]
         l = draw(gen.labels(draw(st.integers(1, 3))))
         spec = {"dims": dims, "labels": [list(l) for _ in dims], "vk": "f", "base": draw(st.integers(0, 9))}
     else:
